@@ -5,6 +5,10 @@ import json, os, subprocess, sys, tempfile
 import xml.etree.ElementTree as ET
 repo = sys.argv[1] if len(sys.argv) > 1 else '/repo'
 base = json.load(open('/root/.vp/BASELINE.json'))
+def _untracked():
+    r = subprocess.run(['git', '-C', repo, 'ls-files', '--others', '--exclude-standard'], capture_output=True, text=True)
+    return set(r.stdout.split('\n')) - {''}
+before = _untracked()
 fd, out = tempfile.mkstemp(suffix='.junit.xml'); os.close(fd)
 env = dict(os.environ); env.pop('HOLPY_VERIF', None)
 subprocess.run(['/venv/bin/python', '-m', 'pytest', '-q', '-p', 'no:cacheprovider', '--timeout=900',
@@ -12,6 +16,12 @@ subprocess.run(['/venv/bin/python', '-m', 'pytest', '-q', '-p', 'no:cacheprovide
                ['/venv/bin/python', '-m', 'pytest', '-q', '-p', 'no:cacheprovider', '--timeout=900',
                 '--continue-on-collection-errors', '--junitxml=' + out],
                cwd=repo, env=env, stdout=subprocess.DEVNULL, stderr=subprocess.DEVNULL)
+# the suite writes result files into the tree (summary.txt, integral/examples/*.json): remove what it created
+for f in _untracked() - before:
+    try:
+        os.remove(os.path.join(repo, f))
+    except OSError:
+        pass
 passed = set()
 for tc in ET.parse(out).getroot().iter('testcase'):
     if not any(ch.tag in ('failure', 'error', 'skipped') for ch in tc):
